@@ -1,18 +1,5 @@
-\* Same for the second deviation of the unchanged tree: with no status line the first header line is
-\* read as one; TLC must find a state violating FramedOrRejected.
-CONSTANTS SLKinds = {5}
-          HdrKinds = {1}
-          MaxHdrs = 1
-          CLVals <- CLValsBodies
-          CLNames = {0}
-          CLDups <- NoDups
-          MaxBody = 1
-          BodyByPos = TRUE
-          BodyAlpha = {120}
-          FragAll = {"end"}
-          FragDepth = 0
-          StallSL = {1}
-          StallFrags = FALSE
+\* Same for the second deviation: with no status line the first header line is read as one; TLC must find a state violating FramedOrRejected.
+CONSTANTS Fams <- FamsTinyNoStatus
           Conforming = {"as_built"}
           Others = {}
 INIT Init
